@@ -43,6 +43,8 @@ type NOp struct {
 	// CBIn (peer, adversarial): the award transaction (right award in output 0) also cites somebody's unspent output
 	// as an input; 2 = and pays its amount to the proposer in a second output
 	// 3 = the award transaction carries an unrequested key write (TxInputsExt / TxOutputsExt on $verif/a)
+	// 4 = the award transaction has a second output (accepted by HEAD's award rule, which reads output 0 only: a VALID
+	// block whose award mints two outputs - both count into the total and are undone with the block)
 	// 6 / 7 = the award output itself / a further output of the award transaction is addressed to the fee placeholder "$"
 	CBIn int `json:"cbin,omitempty"`
 	// TxMut (peer, adversarial): the first generated transaction of the block is changed after it was built:
@@ -504,8 +506,9 @@ func (nm *NodeMachine) Apply(op NOp) error {
 				cb := txs[0]
 				cb.TxOutputs = append(cb.TxOutputs, &protos.TxOutput{ToAddr: []byte(prop.Address), Amount: big.NewInt(123456).Bytes()})
 				cb.Txid, _ = txhash.MakeTransactionID(cb)
-				valid = false
-				whyNot = "the award transaction mints more than CalcAward(height)"
+				// Ledger.IsValidTx (the award rule) looks at output 0 only: HEAD accepts the block, and then every output counts
+				// into the total supply and has to be undone / replayed like any other (C01, C02). If the award rule refuses
+				// it (below), the block is simply never stored.
 				nm.Stat["peer-coinbase-extra-output"]++
 			}
 			if op.CBIn == 6 || op.CBIn == 7 {
@@ -714,6 +717,11 @@ func (nm *NodeMachine) Apply(op NOp) error {
 		// what miner.ProcBlock / batchConfirmBlock do before the ledger sees a pushed block
 		for i, tx := range blk.Transactions {
 			if !n.Ledger.IsValidTx(i, tx, blk) {
+				if op.AwardAdd == 0 && op.CBIn == 4 && i == 0 {
+					nm.LastOutcome = "forbidden"
+					nm.Stat["peer-forbidden-extra-award-output"]++
+					return nil
+				}
 				if op.AwardAdd == 0 {
 					return fmt.Errorf("IsValidTx refuses transaction %d of block %s whose award is CalcAward(height)", i, op.Label)
 				}
